@@ -19,7 +19,7 @@ RULE = ("a case is one string through the real parser; families: grammar-generat
         "distinct = distinct strings; non-trivial = every string except the empty one")
 
 ASSUMPTIONS = [
-    "well-formed grammar = scheme://host:port forms and ':port' with canonical hosts (lower-case names, dotted quads) and explicit "
+    "well-formed grammar = scheme://host:port forms and ':port' with canonical hosts (lower-case names, dotted quads, bracketed IPv6 literals) and explicit "
     "ports; bare 'host:port' is not in it (the URL parser reads 'host' as a scheme: Err, not a panic)",
     "an airport code is well-formed when it is the ICAO or IATA code of an entry of data/airports.json that no earlier entry matches "
     "(the lookup returns the first entry matching the string as an unanchored regular expression)",
@@ -27,7 +27,9 @@ ASSUMPTIONS = [
 ]
 
 HOSTS = ["localhost", "radar.example.org", "rpi4", "10.0.0.1", "192.168.1.20", "1.2.3.4", "a-b.c-d.example", "x", "feed01.lan",
-         "255.255.255.255", "0.0.0.0", "127.0.0.1"]
+         "255.255.255.255", "0.0.0.0", "127.0.0.1",
+         # IPv6 literals in their canonical text form; the brackets belong to the host part of host:port
+         "[::1]", "[::]", "[2001:db8::1]", "[fe80::1]"]
 PORTS = [1, 80, 443, 1234, 4003, 10003, 30005, 65535, 8765, 9876, 2, 65534, 5678]
 PATHS = ["get", "zurich", "1234", "a/b", "a/b/c", "x_y-z", ""]
 
